@@ -191,6 +191,23 @@ def check_purity(ctx):
         ctx.case(case, bool(hist))
         for h in hist:
             ctx.count('history', h)
+        # a third of the cases run with a NARROW sub-seed range (the real get_sub_seed with high = 8..32 instead of 2**31), so
+        # that collisions in the draw stream - and the duplicate-skipping path - occur within the first batches
+        narrow = rng.choice([None, None, 8, 16, 32])
+        case['sub_seed_range'] = narrow
+        ctx.count('sub_seed_range', str(narrow))
+        import elfi.loader as _loader
+        real_gss = _loader.get_sub_seed
+        if narrow:
+            _loader.get_sub_seed = lambda sd, i, cache=None, _h=narrow: real_gss(sd, i, high=_h, cache=cache)
+        try:
+            purity_one(ctx, rng, case, m, spec, names, outputs, seed, bs, idx, hist, perm)
+        finally:
+            _loader.get_sub_seed = real_gss
+
+
+def purity_one(ctx, rng, case, m, spec, names, outputs, seed, bs, idx, hist, perm):
+    if True:
         # reference: fresh context, nothing before
         ref_ctx = elfi.ComputationContext(batch_size=bs, seed=seed)
         ref = digest(elfi.client.BatchHandler(m, ref_ctx, output_names=list(outputs)).compute(idx))
@@ -215,17 +232,17 @@ def check_purity(ctx):
         got = digest(handler.compute(idx))
         if got != ref:
             ctx.fail_input(case, 'batch %d computed after the history %s differs from the same batch on a fresh context' % (idx, hist))
-            continue
+            return
         # again, immediately (the same batch twice in a row on one context)
         if digest(handler.compute(idx)) != ref:
             ctx.fail_input(case, 'the same batch computed twice in a row on one context gives different outputs')
-            continue
+            return
         # model built with a permuted insertion order
         m2, _ = build(rng, Rec(), order=perm, spec=spec)
         got2 = digest(elfi.client.BatchHandler(m2, elfi.ComputationContext(batch_size=bs, seed=seed), output_names=list(outputs)).compute(idx))
         if got2 != ref:
             ctx.fail_input(case, 'a model built with another node insertion order gives different seeded outputs')
-            continue
+            return
         # generate() twice with the same seed
         g1 = digest(m.generate(bs, outputs=list(outputs), seed=seed))
         np.random.rand(3)
